@@ -159,6 +159,9 @@ func execL3Zone(a []string) vlib.Res {
 // be answered from shared failure state.
 func execL3Shed(a []string) vlib.Res {
 	kind := a[0]
+	if kind == "nested" {
+		return execL3ShedNested()
+	}
 	w := l3.NewWorld(false)
 	defer w.Close()
 	w.AddZone("test.", l3.ZoneOpts{})
@@ -250,4 +253,81 @@ func edeOf(m *dns.Msg) []int {
 		return nil
 	}
 	return edeCodes(m)
+}
+
+// fail l3shed nested
+// The shed lookup is a SUB-lookup: child.test. is delegated without glue to
+// name servers whose addresses live in nsfarm.test.; nsfarm.test.'s in-flight
+// quota is pinned by slow lookups, so the name-server address lookups for
+// child.test. are shed. child.test.'s own servers are healthy and were never
+// asked: no zone failure for child.test. may become shared state.
+func execL3ShedNested() vlib.Res {
+	w := l3.NewWorld(false)
+	defer w.Close()
+	w.AddZone("test.", l3.ZoneOpts{})
+	farm := w.AddZone("nsfarm.test.", l3.ZoneOpts{NSTTL: 3600})
+	child := w.AddZone("child.test.", l3.ZoneOpts{NSTTL: 3600, NSHosts: []string{"nsc1.nsfarm.test.", "nsc2.nsfarm.test."}, NoGlue: true})
+	child.Add("www.child.test. 300 IN A 192.0.2.220", "mail.child.test. 300 IN A 192.0.2.221")
+	ip := child.Servers[0].IP.String()
+	farm.Add("nsc1.nsfarm.test. 3600 IN A "+ip, "nsc2.nsfarm.test. 3600 IN A "+ip, "*.pins.nsfarm.test. 300 IN A 192.0.2.222")
+	hold := 1500 * time.Millisecond
+	pin := 16
+	p := l3.NewPipe(w, l3.PipeOpts{Tweak: func(cfg *config.Config) {
+		cfg.Timeout.Duration = 4 * time.Second
+		cfg.QueryTimeout.Duration = 12 * time.Second
+		cfg.MaxConcurrentQueries = 64 // per-zone quota 16
+	}})
+	defer p.Close()
+	p.Query("warm.pins.nsfarm.test.", dns.TypeA, l3.Flags{})
+	srv := farm.Servers[0]
+	base := srv.UDPQueries.Load()
+	srv.SetBehaviour(l3.Behaviour{Delay: func(q dns.Question, _ bool) time.Duration {
+		if strings.HasPrefix(q.Name, "pin") {
+			return hold
+		}
+		return 0
+	}})
+	done := make(chan struct{}, pin)
+	for i := 0; i < pin; i++ {
+		go func(i int) {
+			p.Query(fmt.Sprintf("pin%d.pins.nsfarm.test.", i), dns.TypeA, l3.Flags{Client: fmt.Sprintf("10.9.0.%d:4000", i+1)})
+			done <- struct{}{}
+		}(i)
+	}
+	deadline := time.Now().Add(hold / 2)
+	for srv.UDPQueries.Load() < base+int64(pin) && time.Now().Before(deadline) {
+		time.Sleep(time.Millisecond)
+	}
+	pinned := srv.UDPQueries.Load() >= base+int64(pin)
+	childBefore := child.Servers[0].UDPQueries.Load() + child.Servers[0].TCPQueries.Load()
+	shed := p.Query("www.child.test.", dns.TypeA, l3.Flags{Client: "10.9.1.1:4000"})
+	childAsked := child.Servers[0].UDPQueries.Load()+child.Servers[0].TCPQueries.Load() > childBefore
+	for i := 0; i < pin; i++ {
+		<-done
+	}
+	var retained []string
+	for _, e := range cache.VerifC13Entries(cache.VerifC13FailureOf(p.Cache)) {
+		if e.Kind == cache.FailureKindQuestion {
+			retained = append(retained, e.Question.Question.Name)
+		} else {
+			retained = append(retained, "zone:"+e.Zone.Zone)
+		}
+	}
+	u0, t0, _ := w.TotalQueries()
+	again := p.Query("mail.child.test.", dns.TypeA, l3.Flags{Client: "10.9.1.2:4000"})
+	u1, t1, _ := w.TotalQueries()
+	wasShed := shed != nil && shed.Rcode == dns.RcodeServerFailure && !childAsked
+	impl := fmt.Sprintf("pinned=%s shed=%s shed-ede=%v again=%d again-ede=%v upstream=%d retained=%s", vlib.B(pinned), vlib.B(wasShed), edeOf(shed), rc(again), edeOf(again), (u1-u0)+(t1-t0), strings.Join(retained, ","))
+	or := "-"
+	if pinned && wasShed {
+		or = "ok"
+		ede13 := false
+		for _, c := range edeOf(again) {
+			ede13 = ede13 || c == 13
+		}
+		if len(retained) > 0 || ede13 || (rc(again) == dns.RcodeServerFailure && (u1-u0)+(t1-t0) == 0) {
+			or = "FAIL sig=l3shed/nested/shed-sub-lookup-became-shared-failure retained=" + strings.Join(retained, ",")
+		}
+	}
+	return vlib.Res{Impl: impl, Oracle: or, Tags: "nt"}
 }
